@@ -57,6 +57,34 @@ for root, _, files in os.walk(os.path.join(repo, "src")):
             # delete a plain statement (assignment / method call), never a let binding or a return
             if re.match(r"^\s{8,}[a-z_][A-Za-z0-9_\.\[\]\(\)\*&]* (=|\+=|-=|\*=|/=) [^=].*;\s*$", code) or re.match(r"^\s{8,}self\.[a-z_]+\([^;]*\);\s*$", code) or re.match(r"^\s{8,}self\.[a-z_\.]+\(\)\??;\s*$", code):
                 out.append({"file": rel, "line": i + 1, "old": line, "new": "", "op": "delete-statement"})
+            if os.environ.get("MUTGEN_OPS2"):
+                # second operator set: similar-name swaps, argument swaps, off-by-one, integer constants, deleted set/update calls
+                for x, y in (("datum1", "datum2"), ("datum2", "datum1"), ("term1", "term2"), ("term2", "term1"), ("side1", "side2"), ("side2", "side1"), ("state1", "state2"), ("state2", "state1"),
+                             ("self.", "rhs."), ("rhs.", "self."), ("self.", "other."), ("other.", "self."), ("t1", "t2"), ("t2", "t3"), ("t3", "t2"), ("t2", "t1"), ("position", "velocity"), ("velocity", "acceleration"), ("acceleration", "velocity"), ("velocity", "position"),
+                             ("kp", "ki"), ("ki", "kd"), ("kd", "kp"), ("prev_", ""), ("old_", "new_"), ("new_", "old_"), ("start_state", "end_state"), ("end_state", "start_state"), ("millimeter_exp", "second_exp"), ("second_exp", "millimeter_exp")):
+                    if not line.startswith("        "):
+                        continue
+                    for mm in re.finditer(r"(?<![A-Za-z0-9_])" + re.escape(x), code):
+                        if x in ("self.", "rhs.", "other.") and y.rstrip(".") not in code:
+                            continue  # the other operand must exist in this line
+                        if "fn " in code or "let " in code and code.index("let ") < mm.start() < code.index("=") if ("let " in code and "=" in code) else False:
+                            continue
+                        new = code[:mm.start()] + y + code[mm.end():]
+                        if new != code:
+                            out.append({"file": rel, "line": i + 1, "old": line, "new": new + line[len(code):], "op": f"swap-name {x}->{y}"})
+                mm = re.search(r"\b([a-z_][a-z_0-9:]*)\(([a-z_][a-z_0-9\.]*), ([a-z_][a-z_0-9\.]*)\)", code)
+                if mm and line.startswith("        ") and mm.group(2) != mm.group(3) and "fn " not in code:
+                    out.append({"file": rel, "line": i + 1, "old": line, "new": code[:mm.start()] + f"{mm.group(1)}({mm.group(3)}, {mm.group(2)})" + code[mm.end():], "op": "swap-args"})
+                for pat, repl, name in ((r" - 1\b", "", "drop -1"), (r" \+ 1\b", "", "drop +1"), (r"(?<![\w.])0\.\.", "1..", "range from 1"), (r"\b0 =>", "1 =>", "arm 0->1"), (r"\[0\]", "[1]", "index 0->1"), (r"\[1\]", "[0]", "index 1->0"), (r"(?<![\w.])1\b(?!\.)(?!_)", "2", "int 1->2"), (r"(?<![\w.])2\b(?!\.)(?!_)", "3", "int 2->3")):
+                    for mm in re.finditer(pat, code):
+                        if not line.startswith("        ") or "fn " in code or "impl" in code:
+                            continue
+                        out.append({"file": rel, "line": i + 1, "old": line, "new": code[:mm.start()] + repl + code[mm.end():], "op": name})
+                if re.match(r"^\s{8,}[a-z_][A-Za-z0-9_\.\[\]]*\.borrow_mut\(\)\.[a-z_]+\(.*\)\??;\s*$", code) or re.match(r"^\s{8,}[a-z_][A-Za-z0-9_\.]*\.(set|update|push_back|clear|reset)\(.*\)\??;\s*$", code):
+                    out.append({"file": rel, "line": i + 1, "old": line, "new": "", "op": "delete-call"})
+                if re.match(r"^\s{8,}return .*;\s*$", code) and "Err" not in code:
+                    pass
+                continue
             m = re.search(r"([=(,] ?)-([a-z_(])", code)
             if m and line.startswith("    ") and "->" not in code:
                 out.append({"file": rel, "line": i + 1, "old": line, "new": code[:m.start()] + m.group(1) + m.group(2) + code[m.end():], "op": "drop-unary-minus"})
